@@ -1,6 +1,9 @@
 use crate::engine::{PropRun, RunCfg};
 
 pub mod c01_04;
+pub mod c06;
+pub mod c09;
+pub mod c10;
 pub mod c12;
 pub mod c16;
 
@@ -13,6 +16,9 @@ pub fn run(cfg: RunCfg, verif_dir: &str) -> i32 {
         "C02" => c01_04::run_c02(&mut run),
         "C03" => c01_04::run_c03(&mut run),
         "C04" => c01_04::run_c04(&mut run),
+        "C06" => c06::run(&mut run),
+        "C09" => c09::run(&mut run),
+        "C10" => c10::run(&mut run),
         "C12" => c12::run(&mut run),
         "C16" => c16::run(&mut run),
         _ => {
@@ -27,6 +33,9 @@ pub fn run(cfg: RunCfg, verif_dir: &str) -> i32 {
 pub fn replay(id: &str, suite: &str, path: &str) -> Result<(), String> {
     match id {
         "C01" | "C02" | "C03" | "C04" => c01_04::replay(id, suite, path),
+        "C06" => c06::replay(suite, path),
+        "C09" => c09::replay(suite, path),
+        "C10" => c10::replay(suite, path),
         "C12" => c12::replay(suite, path),
         "C16" => c16::replay(suite, path),
         _ => Err(format!("unknown property {id}")),
